@@ -675,7 +675,95 @@ def w_pruned(failure, tier):
     return dict(found=False, note='pruned vs exhaustive: %d (query, limit, strategy) comparisons agree with bm25' % n)
 
 
+# ---------------------------------------------------------------- U3 / U15 writer histories
+def w_history(failure, tier):
+    """generated histories of add / delete / commit / rollback / restart (process death + reopen) over a small id space,
+    run through IndexWriter on in-memory storage; the live documents must equal the dictionary model of C04/C02"""
+    import random
+    rnd = random.Random(int(os.environ.get('VERIF_SEED', '0') or 0) + 17)
+    ids = ['a', 'b', 'c', 'd']
+    cases = []
+    fixed = [
+        [["add", "a", 1], ["del", "a"], ["restart"]],
+        [["add", "a", 1], ["commit"], ["del", "a"], ["add", "b", 2], ["restart"]],
+        [["add", "a", 1], ["add", "a", 2], ["commit"], ["add", "a", 3], ["del", "a"], ["add", "a", 4], ["restart"], ["commit"]],
+        [["add", "a", 1], ["add", "b", 1], ["commit"], ["del", "b"], ["commit"], ["del", "a"], ["add", "b", 2], ["rollback"], ["add", "c", 1]],
+        [["add", "a", 1], ["commit"], ["add", "b", 1], ["commit"], ["compact"], ["del", "a"], ["add", "b", 2], ["commit"]],
+    ]
+    cases += fixed
+    for _ in range(40 if tier == 'quick' else 300):
+        n = rnd.randint(3, 12)
+        ops = []
+        for _ in range(n):
+            c = rnd.random()
+            if c < 0.45:
+                ops.append(["add", rnd.choice(ids), rnd.randint(1, 99)])
+            elif c < 0.7:
+                ops.append(["del", rnd.choice(ids)])
+            elif c < 0.85:
+                ops.append(["commit"])
+            elif c < 0.9:
+                ops.append(["rollback"])
+            else:
+                ops.append(["restart"])
+        cases.append(ops)
+
+    def model(ops):
+        committed = {}
+        pending = []
+        for op in ops:
+            if op[0] == 'add':
+                pending.append(op)
+            elif op[0] == 'del':
+                pending.append(op)
+            elif op[0] == 'commit':
+                for q in pending:
+                    if q[0] == 'add':
+                        committed[q[1]] = q[2]
+                    else:
+                        committed.pop(q[1], None)
+                pending = []
+            elif op[0] == 'rollback':
+                pending = []
+            # restart: every queued operation was logged (in-memory storage keeps what was written), so it is recovered
+        for q in pending:       # the driver ends with a final commit
+            if q[0] == 'add':
+                committed[q[1]] = q[2]
+            else:
+                committed.pop(q[1], None)
+        return sorted((k, '"v%d"' % v) for k, v in committed.items())
+
+    ins = []
+    for ops in cases:
+        jops = []
+        for op in ops:
+            if op[0] == 'add':
+                jops.append(["add", {"_id": op[1], "body": "v%d" % op[2]}])
+            elif op[0] == 'del':
+                jops.append(["del", op[1]])
+            else:
+                jops.append([op[0]])
+        ins.append(_json.dumps({"ops": jops}).encode())
+    res = drive('history', ins)
+    for ops, r in zip(cases, res):
+        if not r.startswith('OK '):
+            return dict(found=True, cmd='%s history <<< hex(json)' % BIN, input='history %s' % ops, observed=r[:300], expected='the index stays usable')
+        out = _json.loads(r[3:])
+        got = sorted((a, b) for a, b in out['live'])
+        want = model(ops)
+        if got != want:
+            return dict(found=True, cmd='%s history <<< hex(json)' % BIN, input='history %s then a final commit (restart = process death and reopen)' % ops,
+                        observed='live documents %s %s' % (got, out.get('log') or ''), expected='%s (one copy of each id whose last committed operation was an add, that version)' % want)
+    return dict(found=False, note='writer histories: %d histories of add/delete/commit/rollback/restart over 4 ids agree with the dictionary model' % len(cases))
+
+
 GENERATORS = {
+    ('U3', 'commit_fold'): w_history,
+    ('U3', 'load_segment_ids'): w_history,
+    ('U15', 'new_replay'): w_history,
+    ('U15', 'delete_documents_loop'): w_history,
+    ('U15', 'add_document_queue'): w_history,
+    ('U2', 'last_pending_fold'): w_pending,
     ('U16', 'admission'): w_pruned,
     ('U16', 'push_top_k'): w_pruned,
     ('U12', 'advance_to'): w_pruned,
